@@ -227,6 +227,27 @@ ROUND5 = {
  'C19': 'same-owner comparisons (C09.Q1 borrowed).',
  'C20': 'the decision to generate a dependency first is made from the dependency (G3); C17.O1 borrowed.',
 }
+ROUND6 = {
+ 'C01': 'std::regex patterns applied to input text have no unbounded repetition (X6, fixture); a path-keeping bool function answers true only after its membership test (R3); nullable results followed through assignments, weak_ptr::lock() included; gates cited by invariants are evaluated here too (C08.G1/G2, C17.G1 borrowed).',
+ 'C02': 'element text read in a loop is consumed before the next sibling overwrites it (N1); table of libxml2 text getters and their escaping behaviour (X2).',
+ 'C03': 'doubles written into code at full precision (N1); scaling factor for every kind of variable (S3); helper functions defined exactly when used (C17.N1-N3 borrowed).',
+ 'C05': 'an internal variable is re-pointed only inside its equivalence class (V1); the two legitimate writes of mNlaSystemIndex (N1).',
+ 'C06': 'markup search also for prefixed names (X1); the importer never re-points an import (F2).',
+ 'C07': "fetchUnits/fetchComponent do not answer true because a model was left by an earlier pass (R1); shared path stacks balanced (P1).",
+ 'C08': 'shared path stacks of units.cpp balanced (P2); C03.S3 borrowed.',
+ 'C09': 'weak_ptr::lock() results (O1) with a checked discharge when every caller holds the locked object; gates cited by invariants (C08.G1/G2 borrowed).',
+ 'C10': 'a partner is fetched only at an index taken from the unmatched candidates (M2); named bool locals and nested null pairings understood (F1, P1).',
+ 'C11': 'doEquals reads only what clone() copies (Q1); first-iteration push pairing checked instead of exempted (K1).',
+ 'C12': 'absolute uses of own issue counters only behind a clearing entry point (K1); identity before equality in lookups (C09.P5 borrowed).',
+ 'C13': 'annotator loops walk what the model holds now, not a stored list (M1); "advance until unused" decided from the exit fact.',
+ 'C14': 'both arms of a version test hand the same collected values to the same method (B1, fixture).',
+ 'C15': 'the gates of the internal analysis are issue-counter tests only (G1); fail-log keys carry the whole chain of conditions.',
+ 'C16': 'every positive verdict of isCellMLReal is made of the parts of the real grammar (G1).',
+ 'C17': 'GeneratorProfile::setProfile reloads unconditionally (M1); emission conditions seen through a local lambda/helper (N3).',
+ 'C18': 'every recursive walk over equivalences consults a visited set (C01.R1 borrowed); null-safety of the utility from call-graph summaries (N1).',
+ 'C19': 'hierarchy predicates reach no structural comparison (B1); clean(): all positive verdicts consult every attribute, descent before verdict (C1).',
+ 'C20': 'dependencies resolved through a one-key-per-variable map (D1), cleaned unconditionally (D2), recorded external dependencies re-resolved by class (D3).',
+}
 
 NOT_YET = {}
 
@@ -248,7 +269,7 @@ def main():
                 'evidence_file': 'evidence/%s.json' % pid,
                 'replay_cmd_template': './check --replay {path}',
                 'engine': 'sa',
-                'level_claimed': {'category': 'other', 'text': c['text'] + (' Added after round-3 seeding: ' + ROUND3[pid] if pid in ROUND3 else '') + (' Added after round-4 seeding: ' + ROUND4[pid] if pid in ROUND4 else '') + (' Added after round-5 seeding and the independent false-alarm study: ' + ROUND5[pid] if pid in ROUND5 else ''), 'design_ref': c['ref']},
+                'level_claimed': {'category': 'other', 'text': c['text'] + (' Added after round-3 seeding: ' + ROUND3[pid] if pid in ROUND3 else '') + (' Added after round-4 seeding: ' + ROUND4[pid] if pid in ROUND4 else '') + (' Added after round-5 seeding and the independent false-alarm study: ' + ROUND5[pid] if pid in ROUND5 else '') + (' Added after round-6 seeding and the second false-alarm study: ' + ROUND6[pid] if pid in ROUND6 else ''), 'design_ref': c['ref']},
                 'level_note': c['note'],
                 'technique': c['technique'],
             })
